@@ -227,23 +227,8 @@ def run(ctx: Ctx) -> None:
                 ctx.check(good, "L3", f"{qual}: {norm(c)[:60]}", repo.loc(mod, c), "utf-8", f"file opened without encoding='utf-8' ({norm(enc) if enc is not None else 'platform default'}): non-ASCII values change on save/open")
 
     # ---- L4 --------------------------------------------------------------------------------------
-    ctx.rule("L4", "'format' = save(open(IN, expand_includes=expand, include_comments=comments), OUT, indent=, spacer=, quote=, newlinechar=) with options bound by name", 3)
-    ff = repo.func("cli.format")
-    oc = [c for c in facts.calls["cli.format"] if c.target == "utils.open"]
-    sc = [c for c in facts.calls["cli.format"] if c.target == "utils.save"]
-    if len(oc) != 1 or len(sc) != 1:
-        ctx.finding("L4", "format: open + save", repo.loc("cli", ff), f"format calls open {len(oc)}x and save {len(sc)}x")
-    else:
-        b = bind_args(oc[0].node, repo.func("utils.open"))
-        good = isinstance(b.get("fn"), ast.Name) and b["fn"].id == "input_mapfile" and isinstance(b.get("expand_includes"), ast.Name) and b["expand_includes"].id == "expand" and isinstance(b.get("include_comments"), ast.Name) and b["include_comments"].id == "comments"
-        ctx.check(good, "L4", "format: open arguments", repo.loc("cli", oc[0].node), "", f"open called with {[(k, norm(v)) for k, v in b.items() if v is not None]}")
-        b = bind_args(sc[0].node, repo.func("utils.save"))
-        names = {"d": "d", "output_file": "output_mapfile", "indent": "indent", "spacer": "spacer", "quote": "quote", "newlinechar": "newlinechar"}
-        bad = [(k, norm(b[k]) if b.get(k) is not None else None) for k, v in names.items() if not (isinstance(b.get(k), ast.Name) and b[k].id == v)]
-        ctx.check(not bad, "L4", "format: save arguments", repo.loc("cli", sc[0].node), "", f"save called with {bad}")
-        # d is the result of open
-        asg = [n for n in ast.walk(ff) if isinstance(n, ast.Assign) and n.value is oc[0].node]
-        ctx.check(len(asg) == 1 and isinstance(asg[0].targets[0], ast.Name) and asg[0].targets[0].id == "d", "L4", "format: saves what it opened", repo.loc("cli", ff), "", "the dictionary saved is not the one opened")
+    ctx.rule("L4", "'format' = save(open(IN, expand_includes=expand, include_comments=comments), OUT, indent=, spacer=, quote=, newlinechar=): evaluated with recorder stand-ins for open and save, arguments bound to the API signatures", 3)
+    _format_is_save_open(ctx, e)
 
     # ---- L5 --------------------------------------------------------------------------------------
     ctx.rule("L5", "'schema' writes json.dumps(Validator().get_versioned_schema(version)) to the output file", 1)
@@ -264,10 +249,72 @@ def run(ctx: Ctx) -> None:
     _exit_status(ctx, e)
 
 
-def _click_decls(fn: ast.FunctionDef) -> tuple[dict, dict]:
-    """(arguments, options) declared by the click decorators of a command: parameter name -> keyword dict."""
+def _bound(repo, qual: str, a: list, k: dict) -> dict:
+    """Recorded call (positional, keyword) -> parameter name -> value, by the signature of ``qual``."""
+    fn = repo.func(qual)
+    names = [p.arg for p in fn.args.posonlyargs + fn.args.args]
+    out = dict(zip(names, a))
+    out.update(k)
+    return out
+
+
+def _run_format(e, expand, comments, indent):
+    rec: dict = {"open": [], "save": [], "exit": []}
+
+    def open_stub(I_, so, a, k):
+        rec["open"].append((list(a), dict(k)))
+        rec.setdefault("opened", []).append(HDict({"__type__": "map"}))
+        return rec["opened"][-1]
+
+    def save_stub(I_, so, a, k):
+        rec["save"].append((list(a), dict(k)))
+        return a[1] if len(a) > 1 else None
+
+    def exit_stub(fr, so, a, k):
+        rec["exit"].append(a[0] if a else 0)
+        raise pai.PyExc("SystemExit", tuple(a))
+
+    import codecs as _codecs
+
+    stubs = {"utils.open": open_stub, "utils.save": save_stub, "ext:sys.exit": exit_stub, "ext:codecs.decode": lambda fr, so, a, k: _codecs.decode(a[0] if isinstance(a[0], str) else a[0].concrete(), a[1]), "global:cli.logger": SObj("Logger", {})}
+    I2 = e.interp(stubs=stubs, allow_fork=False)
+
+    def make():
+        return None, [None, "in.map", "out.map", indent, "\\t", "\\'", "\\r\\n", expand, comments], {}
+
+    outs = I2.explore("cli.format", make)
+    return rec, outs
+
+
+def _format_is_save_open(ctx: Ctx, e) -> None:
+    repo = ctx.repo
+    ff = repo.func("cli.format")
+    for expand, comments in ((True, False), (False, True)):
+        indent = SNum.sym("indent", 0, None)
+        rec, outs = _run_format(e, expand, comments, indent)
+        tag = f"--{'expand' if expand else 'no-expand'} --{'comments' if comments else 'no-comments'}"
+        if len(rec["open"]) != 1 or len(rec["save"]) != 1:
+            ctx.finding("L4", f"format {tag}: open + save", repo.loc("cli", ff), f"format calls open {len(rec['open'])}x and save {len(rec['save'])}x")
+            continue
+        ob = _bound(repo, "utils.open", *rec["open"][0])
+        sb = _bound(repo, "utils.save", *rec["save"][0])
+        od = {p.arg: d for p, d in zip(reversed(repo.func("utils.open").args.args), reversed(repo.func("utils.open").args.defaults))}
+        exp_v = ob.get("expand_includes", ast.literal_eval(od["expand_includes"]) if "expand_includes" in od else None)
+        com_v = ob.get("include_comments", ast.literal_eval(od["include_comments"]) if "include_comments" in od else None)
+        ctx.check(ob.get("fn") == "in.map" and exp_v is expand and com_v is comments, "L4", f"format {tag}: open arguments", repo.loc("cli", ff), f"fn=in.map expand_includes={expand} include_comments={comments}", f"open is called with { {k: v for k, v in ob.items()} } for {tag}")
+        good = sb.get("output_file") == "out.map" and sb.get("indent") is indent and sb.get("spacer") == "\t" and sb.get("quote") == "'" and sb.get("newlinechar") == "\r\n"
+        ctx.check(good, "L4", f"format {tag}: save arguments", repo.loc("cli", ff), "OUT, indent as given, spacer TAB, quote ', newlinechar CRLF", f"save is called with { {k: v for k, v in sb.items() if k != 'd'} }: OUT, --indent, --spacer=\\t / --quote=\\' / --newlinechar=\\r\\n must arrive as out.map, the indent given, TAB, ' and CR LF")
+        ctx.check(sb.get("d") is rec["opened"][0], "L4", f"format {tag}: saves what it opened", repo.loc("cli", ff), "", "the dictionary saved is not the one opened")
+
+
+def _click_decls(fn: ast.FunctionDef, shared: dict | None = None) -> tuple[dict, dict]:
+    """(arguments, options) declared by the click decorators of a command: parameter name -> keyword dict.
+    ``shared``: module-level names bound to a click.option(...) / click.argument(...) call (one declaration
+    used by several commands)."""
     args_, opts_ = {}, {}
     for d in fn.decorator_list:
+        if isinstance(d, ast.Name) and shared and isinstance(shared.get(d.id), ast.Call):
+            d = shared[d.id]
         if not isinstance(d, ast.Call):
             continue
         name = dotted(d.func) or ""
@@ -299,7 +346,7 @@ def _cli_contract(ctx: Ctx, e) -> None:
     for cmd in ("cli.format", "cli.validate", "cli.schema"):
         fn = repo.func(cmd)
         loc = repo.loc("cli", fn)
-        cargs, copts = _click_decls(fn)
+        cargs, copts = _click_decls(fn, repo.module("cli").assigns)
         if not cargs:
             raise AnalysisError(f"anchor vanished: click.argument declarations of {cmd}")
         # arguments: one value when used as a path, any number when handed to get_mapfiles / iterated
@@ -321,7 +368,7 @@ def _cli_contract(ctx: Ctx, e) -> None:
                     ctx.check(dv == av_ and type(dv) is type(av_), "L8", f"{cmd.split('.')[1]}: --{a.id} default", loc, f"{dv!r} = default of {tgt.split('.')[1]}({api_p})", f"--{a.id} defaults to {dv!r} but {tgt.split('.')[1]}() defaults {api_p} to {av_!r}: the command without options does not do what the API call without options does")
     # counted flags used in arithmetic
     mf = repo.func("cli.main")
-    _, mopts = _click_decls(mf)
+    _, mopts = _click_decls(mf, repo.module("cli").assigns)
     arith = {n.id for b in ast.walk(mf) if isinstance(b, ast.BinOp) for n in (b.left, b.right) if isinstance(n, ast.Name)}
     for o in sorted(arith & set(mopts)):
         ctx.check("count" in mopts[o] and fold(mopts[o]["count"]) is True, "L8", f"main: --{o} is a counted flag", repo.loc("cli", mf), "count=True", f"--{o} is used in arithmetic but not declared count=True: its value is None / a string and the group callback raises for every sub-command")
@@ -337,38 +384,13 @@ def _cli_contract(ctx: Ctx, e) -> None:
     outs = Ig.explore("cli.get_mapfiles", lambda: (None, [("*.map", "c.map")], {}))
     gm = repo.func("cli.get_mapfiles")
     ctx.check(len(outs) == 1 and outs[0].kind == "return" and outs[0].value is not None and list(outs[0].value) == ["a.map", "b.map", "c.map"], "L8", "get_mapfiles: the files matched by the patterns, directories dropped", repo.loc("cli", gm), "a.map b.map c.map", f"for the patterns *.map (matching a.map, the directory dir.map, b.map) and c.map, get_mapfiles gives {[(o.kind, o.exc, o.value) for o in outs]}")
-    # format: escapes decoded, options by name, exit status 0
-    rec: dict = {"open": [], "save": [], "exit": []}
-
-    def open_stub(I_, so, a, k):
-        rec["open"].append((list(a), dict(k)))
-        return HDict({"__type__": "map"})
-
-    def save_stub(I_, so, a, k):
-        rec["save"].append((list(a), dict(k)))
-        return a[1] if len(a) > 1 else None
-
-    def exit_stub(fr, so, a, k):
-        rec["exit"].append(a[0] if a else 0)
-        raise pai.PyExc("SystemExit", tuple(a))
-
-    import codecs as _codecs
-
-    stubs = {"utils.open": open_stub, "utils.save": save_stub, "ext:sys.exit": exit_stub, "ext:codecs.decode": lambda fr, so, a, k: _codecs.decode(a[0] if isinstance(a[0], str) else a[0].concrete(), a[1]), "global:cli.logger": SObj("Logger", {})}
-    I2 = e.interp(stubs=stubs, allow_fork=False)
+    # format: exit status 0 (the arguments of open / save are rule L4)
     indent = SNum.sym("indent", 0, None)
-    outs = I2.explore("cli.format", lambda: (None, [None, "in.map", "out.map", indent, "\\t", "\\'", "\\r\\n", True, False], {}))
+    rec, outs = _run_format(e, True, False, indent)
     ff = repo.func("cli.format")
     o = outs[0]
     finished = (o.kind == "return") or (o.kind == "raise" and o.exc == "SystemExit")
     ctx.check(finished and rec["exit"] in ([], [0], [None]), "L8", "format: finishes with exit status 0", repo.loc("cli", ff), f"exit {rec['exit'] or 'by return'}", f"a successful 'format' ends with {o.exc or 'return'} and exit status {rec['exit']}")
-    if len(rec["open"]) == 1 and len(rec["save"]) == 1:
-        oa, ok_ = rec["open"][0]
-        sa_, sk = rec["save"][0]
-        ctx.check(oa[:1] == ["in.map"] and ok_.get("expand_includes") is True and ok_.get("include_comments") is False, "L8", "format: opens IN with the given --expand / --comments", repo.loc("cli", ff), str(ok_), f"open is called with {oa} {ok_}")
-        ctx.check(sk.get("spacer") == "\t" and sk.get("quote") == "'" and sk.get("newlinechar") == "\r\n" and sk.get("indent") is indent and sa_[1:2] == ["out.map"], "L8", "format: saves to OUT with the options given, escape sequences decoded", repo.loc("cli", ff), "spacer TAB, quote ', newlinechar CRLF", f"save is called with {sa_[1:]} {sk}: --spacer=\\t / --quote=\\' / --newlinechar=\\r\\n must arrive as TAB, ' and CR LF, indent as given")
-    else:
-        ctx.finding("L8", "format: one open, one save", repo.loc("cli", ff), f"format calls open {len(rec['open'])}x and save {len(rec['save'])}x")
 
 
 def _exit_status(ctx: Ctx, e) -> None:
